@@ -1,5 +1,6 @@
 import Driver.Proto
 import LzmaVerif.Model.MTTrace
+import LzmaVerif.Model.MTTraceW
 /-!
 `mt.trace units=<o|f|p per unit, - = none> srcok=<0|1> fused=<0|1> maxw=<n> initw=<n> ev=<tok,tok,…>`
 replays a protocol event log of a real execution through the LTS of `Model/MT.lean`
@@ -55,6 +56,7 @@ def parseEv (t : String) : Option Ev :=
   | ["rt", "d", q] => q.toNat?.map fun q => .ret (.data q)
   | ["rt", "n"] => some (.ret .done)
   | ["rt", "e"] => some (.ret .err)
+  | ["rt", "0"] => some (.c .nop)      -- writers: a non-blocking poll found nothing
   | ["ct", "m"] => some (.c (.top none))
   | ["ct", "h", q] => q.toNat?.map fun q => .c (.top (some q))
   | ["ce", b] => (parseBool b).map fun b => .c (.err b)
@@ -99,5 +101,24 @@ def handleMtTrace (a : Args) : String :=
         else s!"ok events={evs.length}"
       | .error (k, why) => s!"mismatch at={k} event={toks.getD k "(end)"} {why}"
   | _, _, _, _, _, _ => "bad-op"
+
+/-- `mt.wtrace units=<…> initw=<n> ev=<…>`: the open-system replay for the MT writers
+(`LzmaVerif.MT.TraceW.replay`): workers against `MT.workerStep`, the coordinator's operations on the
+shared objects as environment actions. -/
+def handleMtWTrace (a : Args) : String :=
+  match (a.get? "units").bind parseOutcomes, a.nat? "initw", a.get? "ev" with
+  | some units, some initw, some ev =>
+    let toks := if ev == "-" then [] else ev.splitOn ","
+    match toks.mapM parseEv with
+    | none => "bad-op"
+    | some evs =>
+      let cfg : Cfg := { units, srcOk := true, maxWorkers := 256, initialWorkers := initw }
+      match TraceW.replay cfg evs with
+      | .ok v =>
+        if a.nat? "stats" == some 1 then
+          s!"ok events={evs.length} labels={v.path.rev.length} swaps={v.nSwap} phantom={v.nPhantom} dropwin={v.nDropWin} pushbusy={v.nPushBusy} workers={v.perm.length}"
+        else s!"ok events={evs.length}"
+      | .error (k, why) => s!"mismatch at={k} event={toks.getD k "(end)"} {why}"
+  | _, _, _ => "bad-op"
 
 end Driver
